@@ -24,7 +24,7 @@ func checkC14(w *Worker) {
 	body := func(maxRec int, names []int) func(x *Exec) {
 		return func(x *Exec) {
 			fi := x.Choose(len(c14Formats), "config:date-format")
-			period := x.Choose(2, "config:period")
+			period := x.Choose(3, "config:period") // none, one day, two different bounds
 			format := c14Formats[fi]
 			nrec := 0
 			if maxRec > 0 {
@@ -86,6 +86,16 @@ func checkC14(w *Worker) {
 				selected = nil
 				for _, r := range f {
 					if r.Header == d {
+						selected = append(selected, r)
+					}
+				}
+			}
+			if period == 2 {
+				d0, d1 := dates[0].Format(format), dates[1].Format(format)
+				global = append(global, "-b", d0, "-e", d1)
+				selected = nil
+				for _, r := range f {
+					if r.Header == d0 || r.Header == d1 {
 						selected = append(selected, r)
 					}
 				}
